@@ -8,7 +8,14 @@
   Library behaviour assumed here and sampled by the correspondence check: `datetime` arithmetic and field
   access = `Pyg.Greg`; `datetime(y,m,1)` raises ValueError outside year 1..9999; date arithmetic leaving
   [0001-01-01, 9999-12-31] raises OverflowError; `re` matching of the `period` pattern; `str.lower` on ASCII.
-  Not modelled: time zones (a leftover suffix is taken to be rejected: ValueError), relativedelta, timeseries.
+  Not modelled: time zones, relativedelta, timeseries.  Text left over after the last period token is tried by the code as a
+  time-zone name (`tz_convert(t, leftover)`, line 423: `'1dUTC'`, `'1best'`, `'1bLondon'` give a tz-AWARE result; a leading blank
+  already defeats it: `'1d utc'` raises) and rejected with ValueError otherwise.  Which names `as_tz` accepts depends on the pytz
+  data base and on TODAY's date (`tzones()` adds `tzname(now)`, so `BST` / `GMT` come and go with the season): no static function
+  of the text.  The model answers ValueError for EVERY leftover (`Props.C09.tenor_then_leftover`); that is the code's behaviour
+  exactly when the leftover is not a zone name — an assumption of the correspondence (generators keep away from zone names; a
+  tz-aware reply of the code never compares equal to a model reply).  tz-aware START datetimes are outside the model as well:
+  probes show wall-clock arithmetic with the tzinfo object carried along for d/w/h/n/s/b/int/timedelta and a NAIVE midnight for m/q/y.
   Core Lean only.
 -/
 import PygModel.Basic
@@ -114,7 +121,7 @@ def loop : Nat → List Char → Int → Res Int
       | none => loop fuel rest t                 -- a unit letter without a branch leaves t unchanged
     | none =>
       if cs.isEmpty then .ok t
-      else .error .value      -- leftover text is tried as a time zone: not modelled, taken to be rejected (line 423)
+      else .error .value      -- leftover text is tried as a time zone (line 423): ValueError unless `as_tz` knows the name (header)
 
 def lower (s : String) : List Char := s.toList.map Char.toLower
 
